@@ -424,6 +424,7 @@ impl<'a> Explorer<'a> {
                 0
             }),
             Op::AcqStart(..) if !is_async || ts.acq.is_some() => Some(SKIP),
+            Op::Acquire(..) if ts.acq.is_some() && ts.acq_kept => Some(SKIP),
             // polling an acquisition that cannot complete on an *unfair* semaphore has no effect any other
             // task can see (and no scheduling point: blocking on an unfair semaphore commutes)
             Op::AcqStart(sm, k) if !s.sems[*sm].fair && !s.sems[*sm].closed && s.sems[*sm].avail < *k => {
@@ -1212,7 +1213,13 @@ impl<'a> Explorer<'a> {
                 one(n)
             }
             // ---------------- semaphore
-            Op::Acquire(sm, k) => self.acquire_step(s, t, *sm, *k, false),
+            Op::Acquire(sm, k) => {
+                if ts.acq.is_some() && ts.acq_kept {
+                    self.done(&mut n, t, SKIP);
+                    return one(n);
+                }
+                self.acquire_step(s, t, *sm, *k, false)
+            }
             Op::AcqFinish => {
                 match ts.acq {
                     Some((sm, k, _)) if ts.acq_kept || ts.micro == 1 => self.acquire_step(s, t, sm as usize, k, true),
